@@ -670,6 +670,7 @@ package graph
 //@   ensures  [domains] forall(k, any, has(distTo, k) == has(g.hash, k) && has(edgeTo, k) == has(g.hash, k))
 //@   ensures  [S1-realised] forall(k, any, imp(in(k, fin) && k != hc(src), edgeTo[k] != nil && in(hc(edgeTo[k]), fin) && edgeTo[k] == g.hash[hc(edgeTo[k])] && edge(g, hc(edgeTo[k]), k) && distTo[k] == distTo[hc(edgeTo[k])] + wgt(g, hc(edgeTo[k]), k)))
 //@   ensures  [S1-range] forall(k, any, imp(in(k, fin), has(g.hash, k) && 0 <= distTo[k] && distTo[k] < 2147483647))
+//@   ensures  [S3-relaxed] forall(a, any, b, any, imp(in(a, fin) && edge(g, a, b), in(b, fin) && distTo[b] <= distTo[a] + wgt(g, a, b)))
 //@   ensures  [S4-unreachable] forall(k, any, imp(has(g.hash, k) && !in(k, fin), edgeTo[k] == nil || !in(hc(edgeTo[k]), fin)))
 //@   ensures  [graph-kept] graphKept() && fresh(distTo) && fresh(edgeTo)
 //@   assigns  ItemM, VisitM, Inner, HashM, []*distQueueItem, *distQueue, distQueueItem.v, distQueueItem.distance, distQueueItem.previous, distQueueItem.index, distQueueItem.snap, fin, frozen, cnt
@@ -715,5 +716,6 @@ package graph
 //@   loop 4 invariant dC2(g, queueItem, visited, srchash)
 //@   loop 4 invariant dC4(g, queueItem, visited, srchash)
 //@   loop 4 invariant dC5(g, queueItem, visited, srchash)
+//@   loop 4 invariant forall(a, any, b, any, imp(in(a, fin) && edge(g, a, b), in(b, fin) && dd(queueItem, b) <= dd(queueItem, a) + wgt(g, a, b)))
 //@   loop 4 invariant forall(k, any, imp(has(g.hash, k), has(visited, k)))
 //@   loop 4 invariant forall(k, any, has(distTo, k) == in(k, seen4) && has(edgeTo, k) == in(k, seen4) && imp(in(k, seen4), has(g.hash, k) && distTo[k] == dd(queueItem, k) && edgeTo[k] == g.hash[pp(queueItem, k)]))
